@@ -2,6 +2,7 @@
 *feature* name (escape kind, code point class, ...), so that a discrepancy can be keyed by the features of the literal.
 Only forms CPython accepts are produced (the caller still re-checks with ast.literal_eval)."""
 import ast
+import re
 import warnings
 
 SIMPLE_ESC = ['\\n', '\\\\', "\\'", '\\"', '\\a', '\\b', '\\f', '\\r', '\\t', '\\v']
@@ -96,6 +97,12 @@ def one_literal(rng, kind, encoding='utf-8', npieces=None, allow_nonascii=True):
             if triple and not raw and frag.startswith(q):
                 pass
             if feat.startswith('esc-octal-over-377') and 'octal-over-377' in EXCLUDE and prefix.lower() != 'u':
+                continue
+            if re.search(r'\\[0-7]{1,2}$', body) and frag[:1] in tuple('01234567'):
+                continue        # would silently extend the previous octal escape (and change its feature)
+            if kind == 'bytes' and re.search(r'\\[uU](0000)?[dD][89a-fA-F]', frag):
+                # surrogate-looking \u text in a bytes literal: together with the str literal of the same spelling in one
+                # module the compiler of this tree asserts ("this is not a unicode string") - a C43 matter, not drawn
                 continue
             body = cand
             feats.add(feat)
